@@ -84,7 +84,20 @@ def opened(tc, L, P, rpc, seed=0, cached_from=None, fs="mcfs"):
         spec = synth.product_spec("1.1" if tc == "C*8" else "1.5", images=[im])
         files, _ = synth.build(spec)
         prod = harness.Product(files, fs)
-        if cached_from is not None:
+        if cached_from == "cli":
+            # the index is written by the command line tool on a local copy and deployed next to the image
+            import shutil
+
+            from mc import cachelab
+
+            copy = cachelab.local_copy(files, "c02cli")
+            name = synth.image_name(spec, im)
+            if cachelab.run_cli(copy / name, rpc=max(1, L - 1)) != 0:
+                raise RuntimeError("cache tool failed")
+            prod.put(f"{name}.index", (copy / f"{name}.index").read_bytes())
+            shutil.rmtree(copy, ignore_errors=True)
+            tree = prod.open(records_per_chunk=rpc, use_cache=True)
+        elif cached_from is not None:
             prod.open(records_per_chunk=cached_from, create_cache=True, use_cache=False)
             prod.open(records_per_chunk=cached_from, use_cache=True)
             tree = prod.open(records_per_chunk=rpc, use_cache=True)
